@@ -599,6 +599,8 @@ Definition valid_transition (t : N) (sigs : list (bool * cvid)) (h : how) (cv : 
   (* background_compaction_scheduled: cleared only by the background thread, with a broadcast; set only when allowed *)
   else if a_bgs a && negb (a_bgs b) && negb (is_bg_thread t && signalled sigs true CvBg) then 8
   else if negb (a_bgs a) && a_bgs b && (a_sd b || a_bge b) then 9
+  (* the background thread reschedules itself (signal to the pool worker) only at the end of a background call: broadcast due *)
+  else if is_bg_thread t && signalled sigs false CvOther && negb (signalled sigs true CvBg) then 10
   (* manual compaction slot: taken by a client, cleared by the background thread or a client *)
   else if negb (a_man a) && a_man b && is_bg_thread t then 11
   (* shutting_down never reset; bg_error never reset and announced by a broadcast *)
